@@ -2,6 +2,7 @@ CONSTANTS
   Impl = "asis"
   Closers = {"k1", "k2"}
   Graceful = {"k2"}
+  Workers = 0
 SPECIFICATION Spec
 INVARIANTS FinalConnectionClosed NoStateAfterClosed
 CHECK_DEADLOCK FALSE
